@@ -42,7 +42,7 @@ ASSUMPTIONS = ["float64 arithmetic modelled as exact real arithmetic; np.sqrt(3)
                "scipy.sparse constructor of AssembleStiffness replaced by SymSparse (validated by the concretised twin)",
                "free thermal expansion: uniform temperature difference dT, arbitrary densities x: the module input is "
                "x_e*dT, K is assembled with x, u_free = alpha*dT*X"]
-ITEM_TIMEOUT = {"quick": 110, "thorough": 900}
+ITEM_TIMEOUT = {"quick": 240, "thorough": 900}
 REPLAYS_PER_GROUP = 3
 
 
